@@ -414,15 +414,16 @@ static void seqx_enumerate(seqx::Ctx& c, bool thorough) {
             char nm[64]; snprintf(nm, sizeof nm, "single A=%d mem=%d", g.A, (int)g.mem); section(c, nm);
         }
     }
-    // 2. sequences of two operations: every size, offset, length (quick, A=8: boundary lengths; with align_memory also boundary sizes);
+    // 2. sequences of two operations: every size, offset, length for A=2,4; A=8 quick: boundary sizes and lengths (align_memory: vectored
+    //    buffers aligned only); A=8 thorough: complete for align_memory=0, boundary sizes for align_memory=1;
     //    buffers at +1 (align_memory: aligned and +1); vectored ops as 2 pieces cut at len/2
     {
-        struct SCfg { int A; bool mem; bool lenb; bool sizeb; };
+        struct SCfg { int A; bool mem; bool lenb; bool sizeb; int vmis; };
         std::vector<SCfg> cfgs;
-        if (!thorough) cfgs = {{2, false, false, false}, {4, false, false, false}, {8, false, true, false}, {8, true, true, true}};
-        else cfgs = {{2, false, false, false}, {4, false, false, false}, {8, false, false, false}, {8, true, false, false}};
+        if (!thorough) cfgs = {{2, false, false, false, 2}, {4, false, false, false, 2}, {8, false, true, true, 2}, {8, true, true, true, 1}};
+        else cfgs = {{2, false, false, false, 2}, {4, false, false, false, 2}, {8, false, false, false, 2}, {8, true, false, true, 3}};
         for (auto& g : cfgs) {
-            Alpha a{g.A, 2 * g.A + 2, g.lenb, false, g.mem ? 3 : 2, g.mem ? 3 : 2, 1, 15, false};
+            Alpha a{g.A, 2 * g.A + 2, g.lenb, false, g.mem ? 3 : 2, g.vmis, 1, 15, false};
             OpCache oc(a);
             for (int S = 0; S <= 3 * g.A + 1; S++) { if (g.sizeb && !size_boundary(g.A, S)) continue; enum_seq(c, aligned_subject(g.A, g.mem, S), oc, 2); }
             char nm[64]; snprintf(nm, sizeof nm, "seq2 A=%d mem=%d", g.A, (int)g.mem); section(c, nm);
@@ -459,7 +460,7 @@ static void seqx_enumerate(seqx::Ctx& c, bool thorough) {
 }
 
 #ifdef C16_ALIGNED
-SEQX_MAIN("C16", "aligned", "every case = fresh new_aligned_file_adaptor(A, align_memory) over an in-memory recording underlay + a sequence of 1..3 ops (pread/pwrite/preadv/pwritev) that start inside the file. Single ops, complete: (A,mem) in (2,0),(4,0),(8,0),(8,1) [thorough: +(16,0),(16,1)], size 0..3A+1, every offset, length 0..2A+2, buffers aligned/+1/+A/2/mixed, every cut into 1..3 iovec pieces incl. empty pieces (A=16: 3-piece cuts at boundary positions). Sequences of 2: every size/offset/length for A=2,4 (quick A=8: boundary lengths, mem=1 also boundary sizes; thorough A=8 complete, mem 0 and 1), 2-piece iovecs cut at len/2. Sequences of 3 (thorough): A=2 complete; A=4 sizes<=9, lengths<=6; A=8 mem=1 boundary sizes<=17/offsets/lengths<=10. Reference = plain byte vector. distinct = (align_memory, size aligned/empty, #ops, per op: kind, end vs EOF, offset/end aligned, blocks spanned<=3, length class, pieces+empty pieces, buffer placement) [sequences: per op kind, end vs EOF, fully aligned, empty]")
+SEQX_MAIN("C16", "aligned", "every case = fresh new_aligned_file_adaptor(A, align_memory) over an in-memory recording underlay + a sequence of 1..3 ops (pread/pwrite/preadv/pwritev) that start inside the file. Single ops, complete: (A,mem) in (2,0),(4,0),(8,0),(8,1) [thorough: +(16,0),(16,1)], size 0..3A+1, every offset, length 0..2A+2, buffers aligned/+1/+A/2/mixed, every cut into 1..3 iovec pieces incl. empty pieces (A=16: 3-piece cuts at boundary positions). Sequences of 2: every size/offset/length for A=2,4 (quick A=8: boundary sizes and lengths; thorough A=8: complete for mem=0, boundary sizes for mem=1), 2-piece iovecs cut at len/2. Sequences of 3 (thorough): A=2 complete; A=4 sizes<=9, lengths<=6; A=8 mem=1 boundary sizes<=17/offsets/lengths<=10. Reference = plain byte vector. distinct = (align_memory, size aligned/empty, #ops, per op: kind, end vs EOF, offset/end aligned, blocks spanned<=3, length class, pieces+empty pieces, buffer placement) [sequences: per op kind, end vs EOF, fully aligned, empty]")
 #else
 SEQX_MAIN("C16", "composite", "every case = fresh new_fixed_size_linear_file(unit 3|4, n 2|3) / new_linear_file(every sub-file size vector over {0,1,2,3}, n 2|3, total>0) / new_stripe_file(stripe 2|4, n 2|3, 1..2 [thorough 3] stripes per sub-file) over in-memory sub-files + a sequence of 1..3 ops that start inside the file. Single ops, complete: every offset, length 0..2B+2 (clipped at the end), buffers aligned/+1, every cut into 1..3 iovec pieces incl. empty pieces. Sequences of 2: every offset/length, 4 kinds, 2-piece [thorough +3-piece] iovecs. Sequences of 3: pread/pwrite, every offset, every length up to EOF+1 (quick: size<=6; thorough: size<=16). Reference = plain byte vector; layout = concatenation / RAID-0. distinct = (adaptor, unit power of 2, #ops, per op: kind, end vs EOF, offset/end on sub-file|stripe boundary, sub-files spanned<=3, length class, pieces+empty pieces, buffer placement) [sequences: per op kind, end vs EOF, both on boundary, empty]")
 #endif
